@@ -2149,6 +2149,7 @@ func runC16(c *Ctx) int {
 	close(ch)
 	wg.Wait()
 	o.runBombs()
+	o.runCLI()
 
 	if n := run.Counter("race_report_blocks_not_attributed"); n > 0 {
 		run.Inconclusive(fmt.Sprintf("%d race reports without a vegeta frame (a race inside the harness itself)", n))
@@ -2202,6 +2203,7 @@ func runC16(c *Ctx) int {
 	for _, t := range c16ProbeTargets {
 		run.Floor("inputs_"+t, planned["probe"]/int64(len(c16ProbeTargets))*8/10)
 	}
+	run.Floor("cli_file_sets_answered_in_bounded_time", 30)
 	run.Floor("inputs_plain_build", planned["plain"]*9/10)
 	run.Floor("inputs_race_build", planned["race"]*9/10)
 	run.Floor("accepted_inputs_that_are_not_pristine_seeds", (planned["lib"]+planned["probe"])/20)
